@@ -128,7 +128,8 @@ def r22(ctx, prop):
 
 
 def r21(ctx, prop):
-    want = {"C06": ("criticality",), "C20": ("entropy scaling",)}.get(prop)
+    want = {"C06": ("criticality",), "C20": ("entropy scaling",), "C13": ("virial",), "C14": ("parameter construction",),
+            "C17": ("second-derivative", "convolver", "functional", "FMT")}.get(prop)
     return r21_clones.run(ctx.F(), want)
 
 
@@ -260,12 +261,12 @@ PROPERTY_RULES = {
     "C09": [r12, r18, r20, r10_wrapper],
     "C02": [r3, r7],
     "C10": [r10_selector, r8, r1_idealgas, r3, r19, r25],
-    "C14": [r14, r13, r10_identifier],
+    "C14": [r14, r13, r10_identifier, r21],
     "C15": [r15],
     "C20": [r10_transport, r21, r25, r24],
     "C01": [r1_all, r2, r7, r8, r4, r25, r24],
-    "C13": [r1_guard, r8],
-    "C17": [r1_functional, r8, r22, r25],
+    "C13": [r1_guard, r8, r21],
+    "C17": [r1_functional, r8, r22, r25, r21],
     "C11": [r9, r7],
     "C03": [r6, r17, r4, r5, r25, r24],
     "C04": [r4, r16, r25, r24],
